@@ -10,7 +10,7 @@ CASE_TYPE = 'C19.case'
 EXTRA_IMPORTS = re_.RETRY_IMPORTS
 RULE = ('per-attempt outcomes {response ok, response with error (listed / unlisted code), transport exception (listed / subclass / '
         'unlisted), undecodable body, invalid response, identity mismatch, KeyboardInterrupt, asyncio.CancelledError} in every sequence '
-        'of length attempts+1 for strategies of 0..2 (quick) / 0..3 (thorough) attempts (plus no strategy), x 0..3 tracers x single / '
+        'of length attempts+1 for strategies of 0..2 (quick) / 0..3 (thorough) attempts (plus no strategy), x 0..3 tracers (handed over as a list, a tuple, a generator or an iterator) x single / '
         'batch / notification x caller-supplied vs default trace context x sync / async. distinct = distinct full case; non-trivial = '
         'at least one tracer event')
 EXHAUSTIVE = {'quick': False, 'thorough': False}
@@ -40,7 +40,8 @@ def generate(seed, tier):
                 mode = rnd.choice(['client', 'per'])
                 cases.append({'script': [outs[i] for i in seq] + [['ok']], 'client': strategy if mode == 'client' else None,
                               'per': 'unset' if (mode == 'client' or strategy is None) else strategy, 'jitter': [],
-                              'tracers': rnd.choice([0, 1, 2, 3, 2]), 'supplied': rnd.random() < 0.5, 'req': req,
+                              'tracers': rnd.choice([0, 1, 2, 3, 2]), 'tr_as': rnd.choice(['list', 'list', 'tuple', 'gen', 'iter']),
+                              'supplied': rnd.random() < 0.5, 'req': req,
                               'async': rnd.random() < 0.5})
     return cases
 
